@@ -308,7 +308,121 @@ def check_program(rep, prog):
     return n
 
 
+LOOPS = ('ForStmt', 'WhileStmt', 'CXXForRangeStmt', 'DoStmt')
+
+
+def _is_sptree(prog, t):
+    bt = prog.base_type(t) or {}
+    return (bt.get('rec') or '').split('<')[0] == 'parmcb::SPTree'
+
+
+def r14e(rep, prog):
+    """the id handed to a tree equals the position the tree gets in its container: candidates carry the id (cc.tree()) and every
+    consumer indexes the container with it (trees[cc.tree()])"""
+    n = 0
+    for fn in prog.functions:
+        if fn.implicit or not (fn.file.startswith(env.REPO + '/include') or fn.file.startswith(env.WITNESS)):
+            continue
+        cfg = fn.cfg
+        for site in fn.walk():
+            idarg = cont = contname = None
+            if site.k == 'CXXMemberCallExpr' and site.callee and site.callee['name'] == 'emplace_back' and site.object_arg() is not None:
+                ot = prog.base_type(site.object_arg().strip_all().j.get('t')) or {}
+                tas = [ta for ta in (ot.get('targs') or []) if isinstance(ta, int)]
+                if tas and _is_sptree(prog, tas[0]) and len(site.args()) >= 2:
+                    idarg, cont, contname = site.args()[0], ex.key(site.object_arg()), site.object_arg().text(20)
+            elif site.k in ex.CTOR_KINDS and site.callee and site.callee.get('ctor') and not site.callee.get('copy_ctor') and \
+                    not site.callee.get('move_ctor') and _is_sptree(prog, site.j.get('t')) and len(site.c) >= 2:
+                up = site.up()
+                if up is not None and up.k == 'VarDecl':
+                    # a local tree that is pushed into a container afterwards
+                    for m in fn.walk():
+                        if m.k == 'CXXMemberCallExpr' and m.callee and m.callee['name'] in ('push_back', 'emplace_back') and m.args() and \
+                                ex.var_of(m.args()[0]) == up.decl_id and m.object_arg() is not None:
+                            idarg, cont, contname = site.c[0], ex.key(m.object_arg()), m.object_arg().text(20)
+                    if idarg is None:
+                        continue
+                else:
+                    continue
+            if idarg is None:
+                continue
+            n += 1
+            what = 'the id given to a shortest-path tree is the position of the tree in `%s` (consumers index the container with cc.tree())' % (contname,)
+            a = idarg.strip_all()
+            if a.k == 'CXXMemberCallExpr' and a.callee and a.callee['name'] == 'size' and a.object_arg() is not None and ex.key(a.object_arg()) == cont:
+                rep.ok('R14e', site, fn, what, 'id is %s.size() at the time of insertion' % contname)
+                continue
+            v = ex.var_of(a)
+            loop = site.enclosing(*LOOPS)
+            if v is None or loop is None:
+                rep.undecided('R14e', site, fn, what, 'id expression `%s` is outside the idiom table' % a.text(30))
+                continue
+            defs = ex.assignments_to(fn, v)
+            inits = [(d, rhs) for (d, rhs) in defs if rhs is not None]
+            incs = [d for (d, rhs) in defs if rhs is None]
+            pc_site = guards_formula(cfg, site, lambda leaf: None)
+            if len(inits) == 1 and inits[0][1].strip_all().cv == 0 and not loop.is_ancestor_of(inits[0][0]) and incs:
+                # counter idiom: starts at 0, advanced exactly once per inserted tree
+                probs = []
+                if len(incs) != 1:
+                    probs.append('the counter is modified at %d places' % len(incs))
+                for d in incs:
+                    s2 = d.strip_all() if hasattr(d, 'strip_all') else d
+                    if not (d.k in ('UnaryOperator', 'CXXOperatorCallExpr') and d.op == '++'):
+                        probs.append('`%s` is not an increment by one' % d.text(30))
+                    if not loop.is_ancestor_of(d) or d.enclosing(*LOOPS) is not loop:
+                        probs.append('the increment at line %d is not in the loop that inserts the trees' % d.line)
+                        continue
+                    pc_inc = guards_formula(cfg, d, lambda leaf: None)
+                    eq, envv = ex.f_equiv(pc_inc, pc_site)
+                    if not eq:
+                        probs.append('the counter is advanced on iterations that insert no tree, or not on every iteration that inserts one '
+                                     '(increment at line %d and insertion are under different conditions)' % d.line)
+                if probs:
+                    rep.violation('R14e', site, fn, what, '; '.join(probs) + ': ids and positions diverge, trees[cc.tree()] is then another tree',
+                                  key='R14e|%s|counter' % fn.g)
+                else:
+                    rep.ok('R14e', site, fn, what, 'counter %s starts at 0 and is incremented exactly with every insertion' % prog.vars[v]['name'])
+                continue
+            if len(defs) == 1 and inits and loop.is_ancestor_of(inits[0][0]):
+                rhs = inits[0][1].strip_all()
+                is_index = (rhs.k == 'CXXOperatorCallExpr' and rhs.op == '[]') or (rhs.k == 'CallExpr' and rhs.callee and rhs.callee['g'] == 'boost::get')
+                over_vertices = any(x.k == 'CallExpr' and x.callee and x.callee['g'] == 'boost::vertices' for x in loop.walk() if not (loop.body is not None and loop.body.is_ancestor_of(x)))
+                if is_index and over_vertices:
+                    first = None
+                    body = loop.body
+                    if body is not None:
+                        first = body.c[0] if body.k == 'CompoundStmt' and body.c else body
+                    pc_first = guards_formula(cfg, first, lambda leaf: None) if first is not None else None
+                    if pc_first is not None and ex.f_equiv(pc_first, pc_site)[0]:
+                        rep.ok('R14e', site, fn, what, 'id is the vertex index and a tree is inserted for every vertex, in index order')
+                        rep.assume('vertex iteration order equals vertex index order (vecS vertex storage)')
+                    else:
+                        rep.violation('R14e', site, fn, what,
+                                      'the id is the index of the root vertex (`%s`) but a tree is not inserted for every vertex (the insertion is '
+                                      'conditional): after the first skipped vertex ids and positions diverge, trees[cc.tree()] is then another tree '
+                                      'or out of bounds' % rhs.text(30), key='R14e|%s|vertex-index' % fn.g)
+                    continue
+            rep.undecided('R14e', site, fn, what, 'id expression `%s` is outside the idiom table' % a.text(30))
+    return n
+
+
+def check_live_references(rep, prog):
+    """R07b restricted to the tree / candidate classes: the graph, weight map and index map a tree reads are references"""
+    from . import c07
+    sub = type(rep)(rep.prop, rep.tier)
+    c07.r07b_params(sub, prog)
+    k = 0
+    for i in sub.instances.values():
+        if 'SPTree' in i.what or 'SPNode' in i.what or 'Candidate' in i.what or i.function.startswith('positive::'):
+            rep.add('R07b', i.site, i.function, i.what, i.status, i.detail, key=i.key)
+            k += 1
+    return k
+
+
 def run(rep, tier):
+    rep.rule('R14e', 'tree ids equal container positions', floor=4)
+    rep.rule('R07b', 'reference members of the tree classes are bound to storage that outlives the constructor', floor=3)
     rep.rule('R14a', 'guards of every candidate construction site', floor=2)
     rep.rule('R14b', 'recorded weight formula', floor=2)
     rep.rule('R14c', 'FVS / ISO collections are sub-collections by provenance', floor=2)
@@ -323,6 +437,8 @@ def run(rep, tier):
     n = 0
     for prog in progs.values():
         n += check_program(rep, prog)
+        r14e(rep, prog)
+        check_live_references(rep, prog)
         c12.check_first_in_path(rep, prog)
         c12.check_comparators(rep, prog)
     if n == 0:
@@ -334,7 +450,9 @@ def run(rep, tier):
         check_program(prep, pp)
         c12.check_first_in_path(prep, pp)
         c12.check_comparators(prep, pp)
-        for r in ('R14a', 'R14b', 'R14c', 'R14d', 'R12b', 'R12a'):
+        r14e(prep, pp)
+        check_live_references(prep, pp)
+        for r in ('R14a', 'R14b', 'R14c', 'R14d', 'R14e', 'R07b', 'R12b', 'R12a'):
             rep.positive(r, 'witness/positive/c14_candidates.cc', any(i.status == 'violation' and i.rule == r for i in prep.instances.values()))
     except env.AnalysisBroken as e:
         rep.analysis_broken('positive example c14_candidates.cc does not parse: ' + str(e)[:300])
